@@ -456,9 +456,39 @@ pub async fn run_schedule(cfg: WireConfig, ops: &[Op], drain: Drain, oracle: &mu
     let mut w = World::new(cfg).await;
     let mut out = RunOutcome { violation: None, panicked: None };
 
+    let trace = std::env::var("VERIF_TRACE").is_ok();
+    let mut traced_log = 0usize;
+    let mut traced_ev = 0usize;
+    let mut traced_inj = 0usize;
     macro_rules! step {
         ($op:expr) => {{
             w.settle().await;
+            if trace {
+                eprintln!("--- step {} t={}ms op={:?}", w.step, w.now_ms(), $op);
+                for j in &w.injections[traced_inj..] {
+                    eprintln!("    inject -> node {} from {} ({} bytes) genuine_of={:?} manip={:?}", j.to_node, j.from_addr, j.bytes.len(), j.genuine_of, j.manipulation);
+                }
+                traced_inj = w.injections.len();
+                for d in &w.log[traced_log..] {
+                    let kind = d.decoded.as_ref().map(|p| format!("{}", match &p.0.kind { PacketKind::Message{..} => "message", PacketKind::WhoAreYou{..} => "WHOAREYOU", PacketKind::Handshake{..} => "handshake" })).unwrap_or("?".into());
+                    let content = d.from_node.and_then(|q| crate::props::c04::decrypt(d, &w.keys_seen[q])).map(|(m, k)| format!("{m} key={}", hex::encode(&k[..4]))).unwrap_or_default();
+                    eprintln!("    emit #{} node {:?} -> {} {} nonce={} {}", d.idx, d.from_node, d.to_addr, kind, d.decoded.as_ref().map(|p| hex::encode(&p.0.message_nonce[..6])).unwrap_or_default(), content);
+                }
+                traced_log = w.log.len();
+                for e in &w.events[traced_ev..] {
+                    eprintln!("    event node {}: {:?}", e.node, e.out);
+                }
+                traced_ev = w.events.len();
+                for (i, s) in w.snaps.iter().enumerate() {
+                    eprintln!("    snap {}: sessions={:?} active={:?} pending={:?} challenges={:?} exempt={:?}", i,
+                        s.sessions.iter().map(|x| format!("{}:{}/{}{}", x.addr.socket_addr, hex::encode(&x.keys.0[..4]), hex::encode(&x.keys.1[..4]), if x.old_keys.is_some() {"+old"} else {""})).collect::<Vec<_>>(),
+                        s.active.iter().map(|a| format!("{}{}@{} n={} r={} hs={}", if a.internal {"i"} else {""}, a.id, a.addr.socket_addr.port(), hex::encode(&a.nonce[..6]), a.retries, a.handshake_sent)).collect::<Vec<_>>(),
+                        s.pending.iter().map(|a| format!("{}", a.id)).collect::<Vec<_>>(),
+                        s.challenges.iter().map(|(a, _)| format!("{}", a.socket_addr)).collect::<Vec<_>>(),
+                        s.exemptions);
+                }
+                eprintln!("    pool={:?}", w.pool);
+            }
             if let Some(p) = crate::runner::take_panic() {
                 out.panicked = Some(p);
                 oracle.report(&w, rep);
